@@ -1,22 +1,120 @@
-from engine.ch import ok
-from crosshair import NoTracing
+"""scratch canaries for C26/C29 (deleted at the end)"""
+import os
+from checks.h_c26 import *
 from checks import h_c26 as H
-CALLS = [0]
-NAMES = [a + b for a in ('', 'a', 'A', '_') for b in 'aA_']   # 12 names len 1..2
-def conc(x, n):
-    for v in range(n - 1):
-        if x == v: return v
-    return n - 1
+from pony.orm import dbschema as ds, dbapiprovider as dp, core
+from pony.orm.dbproviders import postgres, oracle, sqlite, mysql
 
-def p1(t1: int, t2: int, c1: int, c2: int, u1: bool, u2: bool) -> bool:
-    """
-    pre: 0 <= t1 < 12 and 0 <= t2 < 12 and 0 <= c1 < 3 and 0 <= c2 < 3
-    post: _
-    """
-    CALLS[0] += 1
-    t1 = conc(t1, 12); t2 = conc(t2, 12); c1 = conc(c1, 3); c2 = conc(c2, 3)
-    u1 = True if u1 else False
-    u2 = True if u2 else False
-    with NoTracing():
-        r = H._two_indexes('postgres', 8, NAMES[t1], 'aA_'[c1], NAMES[t2], 'aA_'[c2], u1, u2, 0)
-    return r
+def setup():
+    k = os.environ['CANARY']
+    if k == 'order_no_topo':
+        def f(schema):
+            return sorted(schema.tables.values(), key=lambda t: t.name)
+        ds.DBSchema.order_tables_to_create = f
+    elif k == 'order_superset':
+        def f(schema):
+            tables = []; created = set()
+            todo = sorted(schema.tables.values(), key=lambda t: t.name)
+            while todo:
+                for t in todo:
+                    if created.issubset(t.parent_tables) or t.parent_tables.issubset(created):   # wrong extra disjunct
+                        created.add(t); todo.remove(t); break
+                else: t = todo.pop()
+                tables.append(t)
+            return tables
+        ds.DBSchema.order_tables_to_create = f
+    elif k == 'objs_drop_child_loop':
+        orig = ds.Table.get_objects_to_create
+        def f(table, created_tables=None):
+            if created_tables is None: created_tables = set()
+            created_tables.add(table)
+            result = [table]
+            idx = [i for i in table.indexes.values() if not i.is_pk and not i.is_unique]
+            idx.sort(key=lambda i: i.name); result.extend(idx)
+            if table.schema.named_foreign_keys:
+                for fk in sorted(table.foreign_keys.values(), key=lambda fk: fk.name):
+                    if fk.parent_table not in created_tables: continue
+                    result.append(fk)
+            return result
+        ds.Table.get_objects_to_create = f
+    elif k == 'col_unique_hides_notnull':
+        import inspect, textwrap
+        src = textwrap.dedent(inspect.getsource(ds.Column.get_sql)).replace("if column.is_not_null: append(case('NOT NULL'))", "if column.is_not_null and not column.is_unique: append(case('NOT NULL'))")
+        ns = dict(vars(ds)); exec(src, ns); ds.Column.get_sql = ns['get_sql']
+    elif k == 'col_sqlite_pk_no_notnull':
+        import inspect, textwrap
+        src = textwrap.dedent(inspect.getsource(ds.Column.get_sql)).replace("if schema.dialect == 'SQLite': append(case('NOT NULL'))", "pass")
+        ns = dict(vars(ds)); exec(src, ns); ds.Column.get_sql = ns['get_sql']
+    elif k == 'col_default_true':
+        import inspect, textwrap
+        src = textwrap.dedent(inspect.getsource(ds.Column.get_sql)).replace("not in (None, True, False)", "not in (None, False)")
+        ns = dict(vars(ds)); exec(src, ns); ds.Column.get_sql = ns['get_sql']
+    elif k == 'fk_no_on_delete':
+        import inspect, textwrap
+        src = textwrap.dedent(inspect.getsource(ds.ForeignKey._get_create_sql)).replace("if foreign_key.on_delete:", "if False:")
+        ns = dict(vars(ds)); exec(src, ns); ds.ForeignKey._get_create_sql = ns['_get_create_sql']
+    elif k == 'index_unique_word':
+        import inspect, textwrap
+        src = textwrap.dedent(inspect.getsource(ds.DBIndex._get_create_sql)).replace("if index.is_unique: append(case('UNIQUE'))\n", "append(case('UNIQUE'))\n", 1)
+        ns = dict(vars(ds)); exec(src, ns); ds.DBIndex._get_create_sql = ns['_get_create_sql']
+    elif k == 'index_no_name_check':
+        import inspect, textwrap
+        src = textwrap.dedent(inspect.getsource(ds.DBIndex.__init__)).replace("if name is not None and name in schema.names:", "if False:")
+        ns = dict(vars(ds)); exec(src, ns); ds.DBIndex.__init__ = ns['__init__']
+        src = textwrap.dedent(inspect.getsource(ds.Constraint.__init__)).replace("assert name not in schema.names", "pass").replace("if name in schema.constraints:", "if False:")
+        ns = dict(vars(ds)); exec(src, ns); ds.Constraint.__init__ = ns['__init__']
+    elif k == 'table_no_name_check':
+        import inspect, textwrap
+        src = textwrap.dedent(inspect.getsource(ds.Table.__init__)).replace("if name in schema.names:", "if False:")
+        ns = dict(vars(ds)); exec(src, ns); ds.Table.__init__ = ns['__init__']
+    elif k == 'pg_no_truncate':
+        postgres.PGProvider.normalize_name = lambda provider, name: name.lower()
+    elif k == 'ora_no_upper':
+        oracle.OraProvider.normalize_name = lambda provider, name: name[:provider.max_name_len]
+    elif k == 'fk_name_no_normalize':
+        def f(provider, child_table_name, parent_table_name, child_column_names):
+            return ('fk_%s__%s' % (provider.base_name(child_table_name), '__'.join(child_column_names))).lower()
+        dp.DBAPIProvider.get_default_fk_name = f
+    elif k == 'index_name_off_by_one':
+        orig = dp.DBAPIProvider.get_default_index_name
+        def f(provider, table_name, column_names, is_pk=False, is_unique=False, m2m=False):
+            column_names = tuple(column_names)
+            r = orig(provider, table_name, column_names, is_pk, is_unique, m2m)
+            full = ('unq_' if is_unique else 'idx_') + provider.base_name(table_name)
+            return r if len(full) < provider.max_name_len else (r + 'x')
+        dp.DBAPIProvider.get_default_index_name = f
+    elif k == 'm2m_cols_no_normalize':
+        def f(provider, entity):
+            columns = entity._get_pk_columns_()
+            if len(columns) == 1: return [entity.__name__.lower()]
+            prefix = entity.__name__.lower() + '_'
+            return [prefix + c for c in columns]
+        dp.DBAPIProvider.get_default_m2m_column_names = f
+    elif k == 'm2m_table_symmetric_swapped':
+        def f(provider, attr, reverse):
+            name = attr.entity.__name__ + '_' + reverse.entity.__name__
+            return provider.normalize_name(name)
+        dp.DBAPIProvider.get_default_m2m_table_name = f
+    elif k == 'mapping_all_not_null':
+        orig = ds.Table.add_column
+        def f(table, column_name, sql_type, converter, is_not_null=None, sql_default=None):
+            return orig(table, column_name, sql_type, converter, True, sql_default)
+        ds.Table.add_column = f
+    elif k == 'mapping_set_null_lost':
+        orig = ds.Table.add_foreign_key
+        def f(table, fk_name, child_columns, parent_table, parent_columns, index_name=None, on_delete=False, interleave=False):
+            if on_delete == 'SET NULL': on_delete = None
+            return orig(table, fk_name, child_columns, parent_table, parent_columns, index_name, on_delete, interleave)
+        ds.Table.add_foreign_key = f
+    elif k == 'mapping_fk_index_lost':
+        import inspect, textwrap
+        src = textwrap.dedent(inspect.getsource(ds.ForeignKey.__init__)).replace("if index_name is not False:", "if False:")
+        ns = dict(vars(ds)); exec(src, ns); ds.ForeignKey.__init__ = ns['__init__']
+    elif k == 'composite_unique_dropped':
+        import inspect, textwrap
+        src = textwrap.dedent(inspect.getsource(ds.Table.get_create_command)).replace("index.is_unique and len(index.columns) > 1 ]", "index.is_unique and len(index.columns) > 2 ]")
+        ns = dict(vars(ds)); exec(src, ns); ds.Table.get_create_command = ns['get_create_command']
+    elif k == 'none':
+        pass
+    else:
+        raise SystemExit('unknown canary ' + k)
